@@ -207,7 +207,7 @@ func FuzzReplace(f *testing.F) {
 }
 
 func init() {
-	pb.Register("trie_replace", pb.Options{Base: 10000,
+	pb.Register("trie_replace", pb.Options{Twins: 3, Base: 10000,
 		Required: []string{"left-extending merge", "touching regions", "nested", "invalid-UTF-8 text", "empty replacement", "no occurrence", "failure links rebuilt after further inserts", "more than 256 occurrences"},
 		Rule:     "same generators as C05 plus the shape of the statement (A1 G1 A2 G2 ... Ak T with short patterns Ai and a long pattern starting inside A1 and ending after Ak), touching occurrences, replacement strings from the text alphabet (ambiguous on purpose), empty replacement, masks of width 1-4; oracle: byte-level brute-force coverage; ReplaceWithMask = per-rune masking (valid text); Replace output parsed as U0 R^k1 U1 ... with 1<=kj<=occurrences by dynamic programming; no panic for any text; non-trivial = a maximal region made of >= 3 occurrences with a left-extending merge"},
 		trieg.Gen, runReplace)
